@@ -412,13 +412,14 @@ fn judge<G: GraphLike>(o: &Orig, site: &str, path: &str, text: &str, g2: &G) {
         Err((class, cond, rel)) => {
             scalar_ok = false;
             let src = if o.scalar_from_rewriting { "from-clifford+t-rewriting" } else { "hand-made" };
+            c.count(&format!("scalar-violation:{class}|{cond}:{src}"), 1);
             c.violation(
-                &format!("{site}|{class}|{cond}|{src}"),
+                &format!("{site}|{class}|{cond}"),
                 o.family,
                 o.index,
                 detail(
                     "scalar value changed",
-                    json!({"expected": scalar_json(&o.n.scalar), "observed": scalar_json(dec_scalar(g2)), "relative_error": rel, "tolerance": if class == "scalar-not-exact" { 0.0 } else { SCALAR_REL_TOL }}),
+                    json!({"expected": scalar_json(&o.n.scalar), "observed": scalar_json(dec_scalar(g2)), "scalar_provenance": src, "relative_error": rel, "tolerance": if class == "scalar-not-exact" { 0.0 } else { SCALAR_REL_TOL }}),
                 ),
             );
         }
@@ -922,7 +923,13 @@ pub fn run() {
     c.assume("scalars tagged hand-made (arbitrary Z[omega][1/2] elements, float scalars) go beyond 'scalars arising from Clifford+T rewriting'; their violations carry the tag in the signature");
     c.assume("well-formed diagram: every boundary has degree 1 and is an input or an output exactly once; no variables on vertices (the format does not carry them)");
 
-    let (ms, n_arb, n_large, n_simp) = t.pick((9usize, 900usize, 300usize, 700usize), (14usize, 80_000usize, 20_000usize, 60_000usize));
+    let (ms, n_arb, n_large, n_simp) = t.pick((9usize, 6000usize, 2000usize, 5000usize), (14usize, 700_000usize, 150_000usize, 600_000usize));
+    // the in-scope scalars first, so that a replay file of a scalar signature carries a
+    // witness that really arises from Clifford+T rewriting whenever there is one
+    par_cases("simplified-clifford-t", n_simp, move |r, i| match gen_simplified(r, ms + 3) {
+        Some(n) => check_neutral("simplified-clifford-t", i, r, &n),
+        None => ctx().skipped(),
+    });
     par_cases("arbitrary", n_arb, move |r, i| {
         let n = gen_arbitrary(r, ms, false);
         check_neutral("arbitrary", i, r, &n);
@@ -931,16 +938,12 @@ pub fn run() {
         let n = gen_arbitrary(r, ms, true);
         check_neutral("large-denominators", i, r, &n);
     });
-    par_cases("simplified-clifford-t", n_simp, move |r, i| match gen_simplified(r, ms + 3) {
-        Some(n) => check_neutral("simplified-clifford-t", i, r, &n),
-        None => ctx().skipped(),
-    });
     // exhaustive: every sqrt2^p * omega^k, |p| <= P, on a one-wire diagram with one spider
     let pmax = t.pick(40i64, 200i64);
-    let total = ((2 * pmax + 1) * 8) as usize;
+    let total = ((2 * pmax + 1) * 8 * 2) as usize; // two constructors per value
     par_cases("exact-scalars-exhaustive", total, move |r, i| {
-        let p = (i as i64) / 8 - pmax;
-        let k = (i as i64) % 8;
+        let p = (i as i64) / 16 - pmax;
+        let k = (i as i64 / 2) % 8;
         let s = if i % 2 == 0 {
             Scalar4::sqrt2_pow(p as i32) * Scalar4::from_phase(Rational64::new(k, 4))
         } else {
